@@ -184,15 +184,38 @@ func c16CKS(c *Ctx, set c14Set, n, ctLvl, shareLvl int, ntt bool, sigma float64)
 	c.Emit("agg "+qs+" "+t.String()+" "+I(n)+" "+strings.Join(rows, " "), aggRows)
 	c.Count("agg_tie")
 
-	// KeySwitch into a fresh ciphertext
-	res := rlwe.NewCiphertext(params, 1, ctLvl)
+	// KeySwitch out of place, into receivers allocated at every level (below, at and above the input
+	// level) and pre-filled with junk: the output must be AT THE INPUT'S LEVEL and the same whatever the receiver
+	ksLine := func(recvLvl int) string {
+		return fmt.Sprintf("cks_ks %s %d %s %s %d %s %d", Vec(set.qs(ctLvl)), ctLvl, Mat(c16QRows(params, ct.Value[0], ctLvl, ntt)),
+			Mat(c16QRows(params, ct.Value[1], ctLvl, ntt)), agg.Level(), aggRows, recvLvl)
+	}
+	ksOut := func(o *rlwe.Ciphertext) string {
+		l := o.Level()
+		return I(l) + " " + Mat(Canon(params.RingQ().AtLevel(l), o.Value[0], ntt, false)) + "|" + Mat(Canon(params.RingQ().AtLevel(l), o.Value[1], ntt, false))
+	}
+	res := c14RandCt(c, params, 1, ctLvl)
 	outTok := Try(func() string {
 		protos[0].KeySwitch(ct, agg, res)
-		return Mat(c16QRows(params, res.Value[0], ctLvl, ntt)) + "|" + Mat(c16QRows(params, res.Value[1], ctLvl, ntt))
+		return ksOut(res)
 	})
-	c.Emit(fmt.Sprintf("cks_ks %s %d %s %s %d %s", Vec(set.qs(ctLvl)), ctLvl, Mat(c16QRows(params, ct.Value[0], ctLvl, ntt)),
-		Mat(c16QRows(params, ct.Value[1], ctLvl, ntt)), agg.Level(), aggRows), outTok)
+	c.Emit(ksLine(ctLvl), outTok)
 	c.Count("cks_ks")
+	var others []*rlwe.Ciphertext
+	if outTok != "panic" {
+		for r := 0; r <= set.maxQ(); r++ {
+			if r == ctLvl || (!c.Thorough() && r != 0 && r != set.maxQ()) {
+				continue
+			}
+			o := c14RandCt(c, params, 1, r)
+			c.Emit(ksLine(r), Try(func() string {
+				protos[0].KeySwitch(ct, agg, o)
+				return ksOut(o)
+			}))
+			c.Count("cks_ks_receiver_other_level")
+			others = append(others, o)
+		}
+	}
 
 	label := fmt.Sprintf("set=%s N=%d ctLvl=%d shareLvl=%d ntt=%t sigma=%g", set.name, n, ctLvl, shareLvl, ntt, sigma)
 	if outTok == "panic" {
@@ -224,9 +247,12 @@ func c16CKS(c *Ctx, set c14Set, n, ctLvl, shareLvl int, ntt bool, sigma float64)
 		if !ct2.Value[0].Equal(&res.Value[0]) || !ct2.Value[1].Equal(&res.Value[1]) {
 			return "in_place_differs"
 		}
+		if d := c16SameCt(res, others, ctLvl); d != "" {
+			return d
+		}
 		return ""
 	})
-	c.Probe("cks_decrypts", label+" bound="+bound.String(), "C16-cks", detail)
+	c.Probe("cks_decrypts", label+fmt.Sprintf(" receivers=%d", len(others)+2)+" bound="+bound.String(), "C16-cks", detail)
 }
 
 // ---------------------------------------------------------------------------------------------
@@ -328,14 +354,36 @@ func c16PCKS(c *Ctx, set c14Set, n, ctLvl, shareLvl int, ntt bool, sigma float64
 	c.Emit("agg "+Vec(set.qs(shareLvl))+" "+t.String()+" "+I(n)+" "+strings.Join(flat, " "), aggRows)
 	c.Count("agg_tie")
 
-	res := rlwe.NewCiphertext(params, 1, ctLvl)
+	ksLine := func(recvLvl int) string {
+		return fmt.Sprintf("pcks_ks %s %d %s %s %s %d", Vec(set.qs(ctLvl)), ctLvl, Mat(c16QRows(params, ct.Value[0], ctLvl, ntt)),
+			Mat(c16QRows(params, agg.Value[0], ctLvl, ntt)), Mat(c16QRows(params, agg.Value[1], ctLvl, ntt)), recvLvl)
+	}
+	ksOut := func(o *rlwe.Ciphertext) string {
+		l := o.Level()
+		return I(l) + " " + Mat(Canon(params.RingQ().AtLevel(l), o.Value[0], ntt, false)) + "|" + Mat(Canon(params.RingQ().AtLevel(l), o.Value[1], ntt, false))
+	}
+	res := c14RandCt(c, params, 1, ctLvl)
 	outTok := Try(func() string {
 		protos[0].KeySwitch(ct, agg, res)
-		return Mat(c16QRows(params, res.Value[0], ctLvl, ntt)) + "|" + Mat(c16QRows(params, res.Value[1], ctLvl, ntt))
+		return ksOut(res)
 	})
-	c.Emit(fmt.Sprintf("pcks_ks %s %s %s %s", Vec(set.qs(ctLvl)), Mat(c16QRows(params, ct.Value[0], ctLvl, ntt)),
-		Mat(c16QRows(params, agg.Value[0], ctLvl, ntt)), Mat(c16QRows(params, agg.Value[1], ctLvl, ntt))), outTok)
+	c.Emit(ksLine(ctLvl), outTok)
 	c.Count("pcks_ks")
+	var others []*rlwe.Ciphertext
+	if outTok != "panic" {
+		for r := 0; r <= set.maxQ(); r++ {
+			if r == ctLvl || (!c.Thorough() && r != 0 && r != set.maxQ()) {
+				continue
+			}
+			o := c14RandCt(c, params, 1, r)
+			c.Emit(ksLine(r), Try(func() string {
+				protos[0].KeySwitch(ct, agg, o)
+				return ksOut(o)
+			}))
+			c.Count("pcks_ks_receiver_other_level")
+			others = append(others, o)
+		}
+	}
 
 	// phase(res, skOut) − phase(ct, Σ s_i) = Σ (e_i + phase(z_i, skOut)); |phase(z)| ≤ (d·B + B + d·B)/1 + 1 + d
 	d, B := int64(set.n), c14B(params)
@@ -362,9 +410,12 @@ func c16PCKS(c *Ctx, set c14Set, n, ctLvl, shareLvl int, ntt bool, sigma float64
 		if !ct2.Value[0].Equal(&res.Value[0]) || !ct2.Value[1].Equal(&res.Value[1]) {
 			return "in_place_differs"
 		}
+		if d := c16SameCt(res, others, ctLvl); d != "" {
+			return d
+		}
 		return ""
 	})
-	c.Probe("pcks_decrypts", label, "C16-pcks", detail)
+	c.Probe("pcks_decrypts", label+fmt.Sprintf(" receivers=%d", len(others)+2), "C16-pcks", detail)
 }
 
 // ---------------------------------------------------------------------------------------------
@@ -442,6 +493,25 @@ func c16SmudgeProbes(c *Ctx) {
 		}
 		c.Probe("smudging_present", fmt.Sprintf("%s samples=%d std_milli=%d tol_ppm=%d statistical", strings.ReplaceAll(k, " ", "_"), st.n, int(std*1000), int(tol*1e6)), "C16-smudging", detail)
 	}
+}
+
+// c16SameCt: every receiver ends at the expected level with the reference's polynomials and metadata.
+func c16SameCt(ref *rlwe.Ciphertext, others []*rlwe.Ciphertext, lvl int) string {
+	if ref.Level() != lvl {
+		return fmt.Sprintf("output_level=%d_want=%d", ref.Level(), lvl)
+	}
+	for _, o := range others {
+		if o.Level() != lvl {
+			return fmt.Sprintf("receiver_kept_level=%d_want=%d", o.Level(), lvl)
+		}
+		if !o.Value[0].Equal(&ref.Value[0]) || !o.Value[1].Equal(&ref.Value[1]) {
+			return "output_depends_on_the_receiver"
+		}
+		if !o.MetaData.Equal(ref.MetaData) {
+			return "metadata_depends_on_the_receiver"
+		}
+	}
+	return ""
 }
 
 func c16PRNG(key []byte) *sampling.KeyedPRNG {
